@@ -106,6 +106,14 @@ pub fn on_dealloc(ptr: usize, bytes: usize, _align: usize, ty: &'static str) -> 
 /// About to dereference a raw pointer to queue bookkeeping that is read non-atomically.
 #[inline]
 pub fn touch(ptr: usize, what: &'static str) {
+    // a raw dereference is a trap anchor (pseudo-probe `raw_deref`), and a scheduling point
+    // when a trap fires here or the run has post-load points: the window between loading a
+    // pointer and dereferencing it is then preemptible, for as long as the stall lasts
+    probe(crate::state::Probe::RawDeref as usize);
+    let switch = with(|rt| rt.active.get() && (rt.post_load.get() || matches!(rt.stall_req.get(), Some((t, _)) if t == rt.cur.get())));
+    if switch {
+        crate::shim::sched_point(crate::shim::K_POST);
+    }
     let _g = crate::galloc::NoAttr::new();
     with(|rt| {
         if rt.active.get() && rt.quarantine.get() {
